@@ -422,8 +422,8 @@ def check(args):
             else:
                 res["status"] = "inconclusive"
                 verdict.inconclusive.append("%s: status=%s error=%s" % (h.name, st, ed.get("error_type")))
-        # ---- interpret ----
-        for h in sel:
+        # ---- interpret ----  (failed harnesses: the cheapest counterexample is replayed first)
+        for h in sorted(sel, key=lambda h: (results[h.name]["status"] == "failed", results[h.name].get("duration_s") or 0)):
             res = results[h.name]
             if res["status"] == "success":
                 # vacuity: expected covers
